@@ -187,6 +187,38 @@ def main(tier):
         rep.notes["negative_controls"] = "LexPinned.cfg violates TokSafe, BufPinned.cfg violates Within, as required"
         if not abstract or not bufcases:
             raise core.MachineryError("models emitted nothing")
+        # ---------------- the in-place escape processor behind -e (Unescape.tla): model-checked, then the real dt_io_unescape on exact-size
+        # heap blocks under ASan, every string over the model's alphabet plus random byte strings, validated by UnescapeTrace.tla
+        r = core.tlc_must_pass("Unescape", "Unescape.cfg" if quick else "UnescapeThorough.cfg", workers=16, timeout=1200, heap="8g")
+        rep.add_tlc("Unescape (Safe, NoNul, Meaning, Finishes over every string of <= 5|6 characters)", r)
+        o = core.tlc("Unescape", "UnescapeOff.cfg", workers=4, keep_prints=False)
+        if "NoNul" not in o.violated:
+            raise core.MachineryError("negative control failed: UnescapeOff.cfg does not violate NoNul")
+        rep.notes["unescape_control"] = "UnescapeOff.cfg (table consulted for 'w') violates NoNul as required"
+        udrv = b.driver("drv_unesc", link_lib=True, extra_flags=os.path.join(b.src, "libdutio.a"))
+        ualpha = [92, 97, 99, 110, 118, 119, 96, 37]
+        uins = [()]
+        for n in range(1, (4 if quick else 5) + 1):
+            uins += list(itertools.product(ualpha, repeat=n))
+        for _ in range(3000 if quick else 30000):
+            k = rng.randint(1, 40)
+            uins.append(tuple(rng.choice((92, 92, 92, rng.randint(97, 122), rng.randint(1, 255))) for _ in range(k)))
+        for c in range(1, 256):                       # every byte after a backslash, and alone
+            uins += [(92, c), (c,), (37, 92, c, 92), (92, 92, c)]
+        pu = subprocess.run([udrv], input=("\n".join(bytes(u).hex() for u in uins) + "\n").encode(), stdout=subprocess.PIPE, stderr=subprocess.PIPE, env=env, timeout=600)
+        uouts = pu.stdout.decode().split("\n")
+        if pu.returncode != 0:
+            rep.disagree("dt_io_unescape: %s" % asan_key(pu.stderr.decode("latin-1")), {"rc": pu.returncode, "after": len(uouts) - 1,
+                                                                                         "input": list(uins[min(len(uouts) - 1, len(uins) - 1)]), "report": pu.stderr.decode("latin-1")[-1500:]})
+        uexecs = []
+        for u, o_ in zip(uins, uouts[:-1] if pu.returncode != 0 else uouts):
+            try:
+                ob = list(bytes.fromhex(o_))
+            except ValueError:
+                ob = [0]
+            uexecs.append([{"e": "Reset"}, {"e": "Unesc", "in": list(u), "out": ob, "n": len(u) + 1}])
+        cc.validate_and_report(rep, "UnescapeTrace", "UnescapeTrace.cfg", uexecs, lambda bad, ex: "dt_io_unescape differs from Unescape.tla (meaning of an escaped string)", "unescape")
+        rep.notes["unescape_calls"] = len(uexecs)
         # ---------------- library replay under ASan
         cmds, meta = [], []
 
@@ -252,6 +284,7 @@ def main(tier):
                 for i, o_ in zip(ix, res):
                     outs[i] = o_
         events = []
+        lit_events = []
         ncrash = nseen = 0
         for m, c, o_ in zip(meta, cmds, outs):
             if o_ is None:
@@ -345,6 +378,9 @@ def main(tier):
             jobs.append(("dadd", ["-e", "-f", s, "2012-03-06", "+1d"], None, "escaped format"))
             jobs.append(("dseq", ["-e", "-f", s, "2012-03-06", "2012-03-07"], None, "escaped format"))
         for s in ["abc\\", "\\", "a\\tb\\", "\\\\\\", "x\\q\\", "a\\nb", "\\a\\b\\e\\f\\r\\v", "tab\\t", "q\\"]:
+            jobs.append(("dconv", ["-e", "-f", s, "2012-03-06T10:11:12"], None, "escaped literal"))
+        for _ in range(60 if quick else 600):
+            s = "".join(rng.choice("\\\\acnvw`Z") for _ in range(rng.randint(1, 8)))
             jobs.append(("dconv", ["-e", "-f", s, "2012-03-06T10:11:12"], None, "escaped literal"))
         # zone specifications: long but valid paths to a zone file, hostile names
         for n in (20, 40, 47, 48, 49, 60, 100, 101, 110, 115, 116, 117, 118, 200, 1000):
@@ -444,6 +480,7 @@ def main(tier):
                     # the argv block is contiguous stack memory: a read past the terminator of the format is not a sanitizer event
                     # there, but it shows in the output, which must be the unescaped literal alone
                     want = unescape(argv[2]) + "\n"
+                    lit_events.append({"e": "Lit", "in": list(argv[2].encode("latin-1")), "out": list(out[:-1] if out.endswith(b"\n") else out + b"?")})
                     if out != want.encode("latin-1"):
                         rep.disagree("%s %s: output is not the unescaped literal (format read beyond its end?)" % (tool, role),
                                      {"argv": [repr(a) for a in argv], "stdout": repr(out[:80]), "want": repr(want), "rc": rc})
@@ -455,6 +492,8 @@ def main(tier):
         rep.count(evaluations=nrun, distinct=nrun)
         rep.notes["tool_runs"] = nrun
         core.log("tools: %d runs under ASan" % nrun)
+        cc.validate_and_report(rep, "UnescapeTrace", "UnescapeTrace.cfg", [[{"e": "Reset"}, e] for e in lit_events if 0 not in e["out"]],
+                               lambda bad, ex: "dconv escaped literal: output is not the unescaped literal (format read beyond its end?)", "unescape_literal")
         # ---------------- validate the recorded events: tokeniser conformance with Lex, bounds of every call
         execs = [[{"e": "Reset"}, e] for e in events]
 
